@@ -541,7 +541,10 @@ Definition xres1 (r : res json) : xres :=
 (*    (get_strategies_from_examples examples.py:50-76,                  *)
 (*     produce_combinations as an allocator of dict objects 311-356,    *)
 (*     get_parameters_value _hypothesis.py:213-239 on an object,        *)
-(*     serialize_components examples.py:56-64 as an in-place update,    *)
+(*     serialize_components examples.py:56-74 (since fix cedd1977: only  *)
+(*     the keys of the EXPLICIT container go through the serializer, the *)
+(*     case gets a NEW dict; the pre-fix in-place update of the whole    *)
+(*     container is kept as a labelled SENTINEL),                        *)
 (*     add_examples builder.py:176-178: one generate_one per strategy,  *)
 (*     in order; the requests are sent after ALL cases were built).     *)
 (*    A dict object is an address into a heap of container contents.    *)
@@ -633,60 +636,140 @@ Definition gen_step (rule : gpv_rule) (draw : draw_fn) (idx : nat)
   let r := gpv_ref rule (draw idx (fst ca) (hget (fst acc) (snd ca))) (fst acc) (snd ca) in
   (fst r, snd acc ++ [(fst ca, snd r)]).
 
-(* setattr(case, container, map_func(getattr(case, container))): every conversion
-   writes into the dict it was given and returns it; None stays None *)
-Definition ser_step (ser : ser_fn) (h : heap) (co : str * option nat) : heap :=
-  match snd co with
-  | Some a => hset h a (ser (fst co) (hget h a))
-  | None => h
+Definition is_some {A} (o : option A) : bool := match o with Some _ => true | None => false end.
+Definition is_nil {A} (l : list A) : bool := match l with [] => true | _ => false end.
+
+(* which rule serialize_components follows *)
+Inductive ser_rule :=
+| SerExplicitOnly          (* the code since cedd1977: own = keys of the explicit container, {**map_func(own), **generated} *)
+| SerWholeContainer.       (* SENTINEL, not the code: setattr(case, container, map_func(value)) on the merged container, in place (finding F7) *)
+
+(* key in names *)
+Definition own (names v : dict) : dict := filter (fun kv => assoc_mem (fst kv) names) v.
+Definition generated (names v : dict) : dict := filter (fun kv => negb (assoc_mem (fst kv) names)) v.
+(* {**map_func(own), **generated}: a dict display, i.e. a new object (own is a
+   new dict too; map_func writes into it and nobody else holds it) *)
+Definition ser_new (ser : ser_fn) (c : str) (names v : dict) : dict :=
+  assoc_update (ser c (own names v)) (generated names v).
+
+(* one round of `for container, map_func in maps.items()` for a container of the
+   combination.  x = ((container, address of the EXPLICIT object = explicit.get(container)),
+                      (container, what the case holds after generation)).
+   smap c = the operation has a serializer for the container (c in maps); containers
+   outside maps are never touched.  (maps is iterated in the order of
+   LOCATION_TO_CONTAINER, here the order of the combination: every round allocates at
+   most one object and reads only the explicit objects and its own case object, so the
+   order changes addresses but neither contents nor which objects are distinct.) *)
+Definition ser_one (srule : ser_rule) (smap : str -> bool) (ser : ser_fn) (h : heap)
+  (x : (str * nat) * (str * option nat)) : heap * (str * option nat) :=
+  let c := fst (snd x) in
+  match snd (snd x) with
+  | None => (h, (c, None))                                   (* not value: continue / map_func(None) is None *)
+  | Some a =>
+      if smap c then
+        match srule with
+        | SerWholeContainer => (hset h a (ser c (hget h a)), (c, Some a))
+        | SerExplicitOnly =>
+            if is_nil (hget h a) then (h, (c, Some a))         (* not value: continue *)
+            else (h ++ [ser_new ser c (hget h (snd (fst x))) (hget h a)], (c, Some (length h)))
+        end
+      else (h, (c, Some a))
+  end.
+Fixpoint ser_phase (srule : ser_rule) (smap : str -> bool) (ser : ser_fn) (h : heap)
+  (xs : list ((str * nat) * (str * option nat))) : heap * case_refs :=
+  match xs with
+  | [] => (h, [])
+  | x :: r =>
+      let s := ser_one srule smap ser h x in
+      let rest := ser_phase srule smap ser (fst s) r in
+      (fst rest, snd s :: snd rest)
   end.
 
-(* generate_one of openapi_cases called with the combination, mapped through serialize_components *)
-Definition build_case (rule : gpv_rule) (draw : draw_fn) (ser : ser_fn) (idx : nat)
-  (h : heap) (rc : rcombo) : heap * case_refs :=
-  let g := fold_left (gen_step rule draw idx) rc (h, []) in
-  (fold_left (ser_step ser) (snd g) (fst g), snd g).
+(* the generation half of generate_one: get_parameters_value per container *)
+Definition gen_case (rule : gpv_rule) (draw : draw_fn) (idx : nat) (h : heap) (rc : rcombo) : heap * case_refs :=
+  fold_left (gen_step rule draw idx) rc (h, []).
 
-Fixpoint assemble_from (rule : gpv_rule) (draw : draw_fn) (ser : ser_fn) (idx : nat)
-  (h : heap) (rcs : list rcombo) : heap * list case_refs :=
+(* generate_one of openapi_cases called with the combination, mapped through
+   make_serializer(explicit) where explicit = the combination itself (no overrides) *)
+Definition build_case (rule : gpv_rule) (srule : ser_rule) (draw : draw_fn) (smap : str -> bool) (ser : ser_fn)
+  (idx : nat) (h : heap) (rc : rcombo) : heap * case_refs :=
+  let g := gen_case rule draw idx h rc in
+  ser_phase srule smap ser (fst g) (List.combine rc (snd g)).
+
+Fixpoint assemble_from (rule : gpv_rule) (srule : ser_rule) (draw : draw_fn) (smap : str -> bool) (ser : ser_fn)
+  (idx : nat) (h : heap) (rcs : list rcombo) : heap * list case_refs :=
   match rcs with
   | [] => (h, [])
   | rc :: r =>
-      let b := build_case rule draw ser idx h rc in
-      let rest := assemble_from rule draw ser (S idx) (fst b) r in
+      let b := build_case rule srule draw smap ser idx h rc in
+      let rest := assemble_from rule srule draw smap ser (S idx) (fst b) r in
       (fst rest, snd b :: snd rest)
   end.
-Definition assemble (rule : gpv_rule) (draw : draw_fn) (ser : ser_fn) (h : heap) (rcs : list rcombo) :=
-  assemble_from rule draw ser 0 h rcs.
+Definition assemble (rule : gpv_rule) (srule : ser_rule) (draw : draw_fn) (smap : str -> bool) (ser : ser_fn)
+  (h : heap) (rcs : list rcombo) :=
+  assemble_from rule srule draw smap ser 0 h rcs.
+
+(* what get_parameters_value returned for every container of every case (the object
+   serialize_components finds in the case), in the same sequence *)
+Fixpoint gen_refs_from (rule : gpv_rule) (srule : ser_rule) (draw : draw_fn) (smap : str -> bool) (ser : ser_fn)
+  (idx : nat) (h : heap) (rcs : list rcombo) : list case_refs :=
+  match rcs with
+  | [] => []
+  | rc :: r => snd (gen_case rule draw idx h rc)
+               :: gen_refs_from rule srule draw smap ser (S idx) (fst (build_case rule srule draw smap ser idx h rc)) r
+  end.
 
 (* what each case holds when the requests are sent *)
 Definition wire (h : heap) (cr : case_refs) : list (str * option dict) :=
   map (fun co => (fst co, match snd co with Some a => Some (hget h a) | None => None end)) cr.
-Definition wires (rule : gpv_rule) (draw : draw_fn) (ser : ser_fn) (h : heap) (rcs : list rcombo)
-  : list (list (str * option dict)) :=
-  map (wire (fst (assemble rule draw ser h rcs))) (snd (assemble rule draw ser h rcs)).
+Definition wires (rule : gpv_rule) (srule : ser_rule) (draw : draw_fn) (smap : str -> bool) (ser : ser_fn)
+  (h : heap) (rcs : list rcombo) : list (list (str * option dict)) :=
+  map (wire (fst (assemble rule srule draw smap ser h rcs))) (snd (assemble rule srule draw smap ser h rcs)).
 
 (* ---- specification: the value-level meaning of one case ---- *)
 Definition strip (o : option dict) : dict := match o with Some d => d | None => [] end.
 (* explicit part merged with the drawn part (copied.update(new)); an empty
    explicit container is replaced by the draw *)
 Definition merged (v new : dict) : dict := match v with [] => new | _ => assoc_update v new end.
-Definition case_value (draw : draw_fn) (ser : ser_fn) (h0 : heap) (idx : nat) (rc : rcombo)
+(* the value serialize_components leaves in the case for a merged container m whose
+   explicit part is names: the explicit keys serialized, the rest as generated *)
+Definition sval (smap : str -> bool) (ser : ser_fn) (c : str) (names m : dict) : dict :=
+  if smap c && negb (is_nil m) then ser_new ser c names m else m.
+Definition case_value (draw : draw_fn) (smap : str -> bool) (ser : ser_fn) (h0 : heap) (idx : nat) (rc : rcombo)
   : list (str * option dict) :=
-  map (fun ca => (fst ca, Some (ser (fst ca)
+  map (fun ca => (fst ca, Some (sval smap ser (fst ca) (hget h0 (snd ca))
          (merged (hget h0 (snd ca)) (strip (draw idx (fst ca) (hget h0 (snd ca)))))))) rc.
-Fixpoint values_from (draw : draw_fn) (ser : ser_fn) (h0 : heap) (idx : nat) (rcs : list rcombo)
+Fixpoint values_from (draw : draw_fn) (smap : str -> bool) (ser : ser_fn) (h0 : heap) (idx : nat) (rcs : list rcombo)
   : list (list (str * option dict)) :=
   match rcs with
   | [] => []
-  | rc :: r => case_value draw ser h0 idx rc :: values_from draw ser h0 (S idx) r
+  | rc :: r => case_value draw smap ser h0 idx rc :: values_from draw smap ser h0 (S idx) r
+  end.
+
+(* the pre-fix meaning of a case (SENTINEL side): the serializer applied to the whole
+   merged container *)
+Definition case_value_whole (draw : draw_fn) (ser : ser_fn) (h0 : heap) (idx : nat) (rc : rcombo)
+  : list (str * option dict) :=
+  map (fun ca => (fst ca, Some (ser (fst ca)
+         (merged (hget h0 (snd ca)) (strip (draw idx (fst ca) (hget h0 (snd ca)))))))) rc.
+
+(* SERIALIZED EXACTLY ONCE: the explicit container through the serializer of its
+   location (the identity where the operation has none), the fill-in as its strategy
+   delivered it (that strategy applies the same serializer itself: draw_of_strategy) *)
+Definition ser1 (smap : str -> bool) (ser : ser_fn) : ser_fn := fun c d => if smap c then ser c d else d.
+Definition once_case (draw : draw_fn) (smap : str -> bool) (ser : ser_fn) (idx : nat) (l : list (str * dict))
+  : list (str * option dict) :=
+  map (fun cd => (fst cd, Some (assoc_update (ser1 smap ser (fst cd) (snd cd)) (strip (draw idx (fst cd) (snd cd)))))) l.
+Fixpoint once_from (draw : draw_fn) (smap : str -> bool) (ser : ser_fn) (idx : nat) (ls : list (list (str * dict)))
+  : list (list (str * option dict)) :=
+  match ls with
+  | [] => []
+  | l :: r => once_case draw smap ser idx l :: once_from draw smap ser (S idx) r
   end.
 
 (* region predicates (executable) *)
 Definition wf_refs (h : heap) (rcs : list rcombo) : bool :=
   forallb (fun rc => forallb (fun ca => Nat.ltb (snd ca) (length h)) rc) rcs.
-Definition is_some {A} (o : option A) : bool := match o with Some _ => true | None => false end.
-Definition is_nil {A} (l : list A) : bool := match l with [] => true | _ => false end.
 (* every location that has an explicit container declares parameters: the
    strategy is not st.none() *)
 Fixpoint all_drawn (draw : draw_fn) (h0 : heap) (idx : nat) (rcs : list rcombo) : bool :=
@@ -704,6 +787,22 @@ Fixpoint nothing_to_fill (draw : draw_fn) (h0 : heap) (idx : nat) (rcs : list rc
                                   && match draw idx (fst ca) (hget h0 (snd ca)) with
                                      | Some [] => true | _ => false end) rc
                && nothing_to_fill draw h0 (S idx) r
+  end.
+(* the contract of the fill-in draw (exclude = value.keys(), a dict has unique keys):
+   something is drawn, its keys are pairwise different and none is an explicit key;
+   the explicit containers are not empty *)
+Fixpoint nodup_strs (l : list str) : bool :=
+  match l with [] => true | k :: r => negb (existsb (str_eqb k) r) && nodup_strs r end.
+Definition draw_ok (v : dict) (o : option dict) : bool :=
+  match o with
+  | Some new => negb (is_nil v) && nodup_strs (keys new) && forallb (fun k => negb (assoc_mem k v)) (keys new)
+  | None => false
+  end.
+Fixpoint fill_ok (draw : draw_fn) (h0 : heap) (idx : nat) (rcs : list rcombo) : bool :=
+  match rcs with
+  | [] => true
+  | rc :: r => forallb (fun ca => draw_ok (hget h0 (snd ca)) (draw idx (fst ca) (hget h0 (snd ca)))) rc
+               && fill_ok draw h0 (S idx) r
   end.
 (* the examples, each serialized exactly once *)
 Definition examples_serialized_once (ser : ser_fn) (h0 : heap) (rcs : list rcombo)
@@ -741,14 +840,18 @@ Definition draw_table (tbl : list (nat * str * option dict)) : draw_fn :=
                  | Some e => snd e
                  | None => None
                  end.
+Definition smap_of (l : list str) : str -> bool := fun c => in_strs c l.
+Definition smap_all : str -> bool := fun _ => true.
 Definition heap_eqb (a b : heap) : bool := json_eqb (JArr (map JObj a)) (JArr (map JObj b)).
 (* everything the correspondence compares, for one example list *)
-Definition assembly_report (rule : gpv_rule) (draw : draw_fn) (ser : ser_fn) (exs : list example)
-  : list rcombo * list (list (str * option dict)) * list case_refs * bool :=
+Definition assembly_report (rule : gpv_rule) (srule : ser_rule) (draw : draw_fn) (smap : str -> bool) (ser : ser_fn)
+  (exs : list example)
+  : list rcombo * list (list (str * option dict)) * list case_refs * bool * list case_refs :=
   let hr := ref_combinations exs in
-  let asm := assemble rule draw ser (fst hr) (snd hr) in
-  (snd hr, wires rule draw ser (fst hr) (snd hr), snd asm,
-   heap_eqb (firstn (length (fst hr)) (fst asm)) (fst hr)).
+  let asm := assemble rule srule draw smap ser (fst hr) (snd hr) in
+  (snd hr, wires rule srule draw smap ser (fst hr) (snd hr), snd asm,
+   heap_eqb (firstn (length (fst hr)) (fst asm)) (fst hr),
+   gen_refs_from rule srule draw smap ser 0 (fst hr) (snd hr)).
 
 (* ------------------------------------------------------------------ *)
 (* 8. add_examples on cases with their REAL header dictionaries         *)
